@@ -487,6 +487,11 @@ func (s *startupCoordinator) authenticateHandshake(ctx context.Context, authFram
 	if s.conn.auth == nil {
 		return fmt.Errorf("authentication required (using %q)", authFrame.class)
 	}
+	if s.conn.version < protoVersion2 {
+		// protocol 1 authenticates with CREDENTIALS (opcode 0x04), which is
+		// not implemented; AUTH_RESPONSE does not exist there
+		return fmt.Errorf("gocql: authentication is not supported with protocol version %d (using %q)", s.conn.version, authFrame.class)
+	}
 
 	resp, challenger, err := s.conn.auth.Challenge([]byte(authFrame.class))
 	if err != nil {
